@@ -1,11 +1,16 @@
 #!/usr/bin/env python3
-"""Runs checks against a seeded change:  tools/seedtest.py <seeded name> [check ids...] [--tier quick|thorough]
+"""Runs checks against a seeded change:  tools/seedtest.py <seeded name> [check ids...] [--tier quick|thorough] [--in-repo]
 
-Applies /verif/seeded/<name>/patch.diff to /repo itself (git apply), runs the named checks (default: the property
-the change was written for) with --no-evidence, records exit codes and new violation keys in
-/verif/seeded/<name>/result.json and restores /repo (git checkout -- .) whatever happens."""
+Default: a scratch git worktree of /repo HEAD is created under /tmp, /verif/seeded/<name>/patch.diff is applied to it,
+and the named checks (default: the property the change was written for) are run with VERIF_REPO pointing at that
+worktree and a private build cache inside it (so several seeded changes can be tested side by side and /repo is never
+touched); the worktree and its build output are removed afterwards.
+--in-repo: apply the patch to /repo itself (git apply), run the checks exactly as registered, restore /repo
+(git checkout -- .) whatever happens.  Refuses when /repo has uncommitted changes.
+Exit codes and new violation keys are recorded in /verif/seeded/<name>/result.json (checks run with --no-evidence)."""
 import json
 import os
+import shutil
 import subprocess
 import sys
 import time
@@ -14,37 +19,59 @@ VERIF = os.path.dirname(os.path.dirname(os.path.abspath(__file__)))
 
 
 def main():
-    args = [a for a in sys.argv[1:] if not a.startswith("--")]
+    argv = sys.argv[1:]
+    in_repo = "--in-repo" in argv
     tier = "quick"
-    if "--tier" in sys.argv:
-        tier = sys.argv[sys.argv.index("--tier") + 1]
-        args = [a for a in args if a != tier]
+    if "--tier" in argv:
+        tier = argv[argv.index("--tier") + 1]
+    args = [a for a in argv if not a.startswith("--") and a != tier]
     name = args[0]
     d = os.path.join(VERIF, "seeded", name)
     meta = json.load(open(os.path.join(d, "meta.json")))
     checks = args[1:] or [meta["property"]]
-    dirty = subprocess.run(["git", "-C", "/repo", "status", "--porcelain", "--untracked-files=no"], stdout=subprocess.PIPE).stdout.decode().strip()
-    if dirty:
-        print("refusing: /repo has uncommitted changes to tracked files:\n" + dirty)
-        return 2
+    patch = os.path.join(d, "patch.diff")
+    env = dict(os.environ)
+    env["VERIF_BRIEF"] = "1"
+    wt = "/tmp/seedwt-%s-%d" % (name, os.getpid())
+    if in_repo:
+        dirty = subprocess.run(["git", "-C", "/repo", "status", "--porcelain", "--untracked-files=no"], stdout=subprocess.PIPE).stdout.decode().strip()
+        if dirty:
+            print("refusing: /repo has uncommitted changes to tracked files:\n" + dirty)
+            return 2
+    else:
+        subprocess.run(["git", "-C", "/repo", "worktree", "prune"])
+        subprocess.run(["git", "-C", "/repo", "worktree", "add", "-q", wt, "HEAD"], check=True)
+        env["VERIF_REPO"] = wt
+        env["VERIF_CACHE"] = os.path.join(wt, "_verif_cache")
     results = {}
     try:
-        subprocess.run(["git", "-C", "/repo", "apply", os.path.join(d, "patch.diff")], check=True)
+        subprocess.run(["git", "-C", "/repo" if in_repo else wt, "apply", patch], check=True)
         for c in checks:
             t0 = time.time()
-            env = dict(os.environ)
-            env["VERIF_BRIEF"] = "1"
             r = subprocess.run([os.path.join(VERIF, "check"), c, "--tier", tier, "--no-evidence"], cwd=VERIF, env=env,
                                stdout=subprocess.PIPE, stderr=subprocess.STDOUT)
             out = r.stdout.decode(errors="replace")
-            keys = [l.strip()[5:] for l in out.splitlines() if l.strip().startswith("key: ")]
+            keys = []
+            lines = out.splitlines()
+            for i, l in enumerate(lines):
+                if l.strip().startswith("key: "):
+                    prop = ""
+                    if i > 0 and lines[i - 1].startswith("VIOLATION property="):
+                        prop = lines[i - 1].split()[1].split("=")[1]
+                    keys.append((prop + " " if prop and prop != c else "") + l.strip()[5:])
             results[c] = {"exit": r.returncode, "tier": tier, "violation_keys": keys[:25], "n_violation_keys": len(keys),
-                          "wall_s": round(time.time() - t0, 1), "summary": out.strip().splitlines()[-1] if out.strip() else ""}
+                          "wall_s": round(time.time() - t0, 1), "summary": out.strip().splitlines()[-1] if out.strip() else "",
+                          "how": "patch applied to /repo" if in_repo else "patch applied to a scratch worktree of /repo HEAD (VERIF_REPO)"}
             print("%s on seeded %s: exit %d, %d new violation keys (%.0fs)" % (c, name, r.returncode, len(keys), time.time() - t0))
             for k in keys[:6]:
                 print("    " + k)
     finally:
-        subprocess.run(["git", "-C", "/repo", "checkout", "--", "."])
+        if in_repo:
+            subprocess.run(["git", "-C", "/repo", "checkout", "--", "."])
+        else:
+            subprocess.run(["git", "-C", "/repo", "worktree", "remove", "--force", wt], stdout=subprocess.DEVNULL, stderr=subprocess.DEVNULL)
+            shutil.rmtree(wt, ignore_errors=True)
+            subprocess.run(["git", "-C", "/repo", "worktree", "prune"])
     path = os.path.join(d, "result.json")
     old = {}
     if os.path.exists(path):
